@@ -26,7 +26,9 @@ package storage
 //@   requires forall(k, 0, inflowMass.len, inflowMass.at(k) >= 0 && storageOutflow.at(k) >= 0 && storageVolume.at(k) >= 0)
 //@   requires deltaT > 0 && initialStoredMass >= 0
 //@   assigns outflowMass.cells, decayedMass.cells
+//@   callsite LumpedConstituentTransport [C12.dissolved-nodecay-wiring] arg0 == inflowMass && arg1 == nil && arg2 == storageOutflow && arg3 == storageVolume && arg4 == initialStoredMass && arg6 == 0 && arg7 == deltaT && arg8 == outflowMass && arg9 == nil
 //@   ensures [C12.dissolved-nodecay-nonneg] rStored >= 0
+//@   ensures [C12.dissolved-nodecay-untouched] decayedMass.cells == old(decayedMass.cells)
 
 // ---- C12: reservoir particulate trapping ----
 
